@@ -1494,6 +1494,11 @@ func (x *Exec) inTopOrItsClosure() bool {
 		if x.frames[i].fi != nil {
 			return x.frames[i].fi == x.top
 		}
+		// a closure belongs to the function its literal is written in, wherever it is called from (a literal of the
+		// function under verification that an inlined callee invokes still sees that function's lets and parameters)
+		if l := x.frames[i].lit; l != nil && x.top != nil && x.top.Decl != nil && x.top.Decl.Pos() <= l.Pos() && l.End() <= x.top.Decl.End() {
+			return true
+		}
 	}
 	return false
 }
